@@ -389,47 +389,8 @@ func runC15(r *Rng, n int, tier string) {
 	for i, tg := range c15Targets {
 		emit(goTypeParseCase(fmt.Sprintf("parse-t%d", i), tg.JSON))
 	}
-	dirs := []string{"", "a", "github.com/x", "gopkg.in", "example.com/a/b", "go-x/y", "x/v2", "x/go-y", "x/y-go", "x/y.z"}
-	pkgs := []string{"pkg", "go-pkg", "pkg-go", "v2", "v10", "my.pkg", "my_pkg", "Pkg", "p1"}
-	typs := []string{"T", "Type", "t", "T1", ""}
-	basics := []string{"string", "int", "int64", "float64", "bool", "byte", "rune", "uint8", "error", "any", "complex128", "uintptr", "Pointer", "untyped int", ""}
 	for i := 0; i < n; i++ {
-		var js string
-		switch r.Intn(5) {
-		case 0:
-			js = jsonStr(r.Pick(basics))
-		case 1, 2:
-			d := r.Pick(dirs)
-			s := r.Pick(pkgs) + "." + r.Pick(typs)
-			if d != "" {
-				s = d + "/" + s
-			}
-			if r.Chance(25) {
-				s = "*" + s
-			}
-			if r.Chance(10) {
-				s = strings.Replace(s, ".", "", 1)
-			}
-			js = jsonStr(s)
-		default:
-			o := J{}
-			if r.Chance(80) {
-				d := r.Pick(dirs)
-				pk := r.Pick(pkgs)
-				if d != "" {
-					pk = d + "/" + pk
-				}
-				o["import"] = pk
-			}
-			if r.Chance(30) {
-				o["package"] = r.Pick([]string{"alias", "p", ""})
-			}
-			o["type"] = r.Pick(append(typs, "string", "int64"))
-			if r.Chance(30) {
-				o["pointer"] = true
-			}
-			js = jsonStr(o)
-		}
+		js := randGoTypeSpec(r)
 		emit(goTypeParseCase(fmt.Sprintf("parse-%d", i), js))
 	}
 	// gotype under dense override lists
@@ -666,4 +627,55 @@ func c15SchemaTypes(r *Rng, id string) Case {
 		oracle = strings.Join(problems[:min(len(problems), 3)], " | ")
 	}
 	return Case{ID: id, Kind: "e2e", In: in, Impl: obs, Oracle: oracle, Tags: tags}
+}
+
+
+// randGoTypeSpec: a go_type value (JSON): basic types, import-path specs in every arrangement of dots, slashes,
+// pointer stars and version / go- affixes (including specs with no type name at all), and object forms
+func randGoTypeSpec(r *Rng) string {
+	dirs := []string{"", "a", "github.com/x", "gopkg.in", "example.com/a/b", "go-x/y", "x/v2", "x/go-y", "x/y-go", "x/y.z"}
+	pkgs := []string{"pkg", "go-pkg", "pkg-go", "v2", "v10", "my.pkg", "my_pkg", "Pkg", "p1"}
+	typs := []string{"T", "Type", "t", "T1", ""}
+	basics := []string{"string", "int", "int64", "float64", "bool", "byte", "rune", "uint8", "error", "any", "complex128", "uintptr", "Pointer", "untyped int", ""}
+	var js string
+	switch r.Intn(6) {
+	case 0:
+		js = jsonStr(r.Pick(basics))
+	case 1, 2:
+		d := r.Pick(dirs)
+		s := r.Pick(pkgs) + "." + r.Pick(typs)
+		if d != "" {
+			s = d + "/" + s
+		}
+		if r.Chance(25) {
+			s = "*" + s
+		}
+		if r.Chance(10) {
+			s = strings.Replace(s, ".", "", 1)
+		}
+		js = jsonStr(s)
+	case 3:
+		// the type name forgotten, stray separators
+		js = jsonStr(r.Pick([]string{"github.com/foo", "gopkg.in/guregu", "example.com/", "*github.com/segmentio/ksuid", ".", "/", "*", "a.b/c", "a/b.", "./x", "x/.y", "**a/b.C",
+			"a/b.C.D", "a//b.C", " a/b.C", "a/b.C ", "a/b.*C", "[]a/b.C", "a.b", "a.b.c/d", "/.", "./", "a/", "/a.B", "github.com/x/y/"}))
+	default:
+		o := J{}
+		if r.Chance(80) {
+			d := r.Pick(dirs)
+			pk := r.Pick(pkgs)
+			if d != "" {
+				pk = d + "/" + pk
+			}
+			o["import"] = pk
+		}
+		if r.Chance(30) {
+			o["package"] = r.Pick([]string{"alias", "p", ""})
+		}
+		o["type"] = r.Pick(append(typs, "string", "int64"))
+		if r.Chance(30) {
+			o["pointer"] = true
+		}
+		js = jsonStr(o)
+	}
+	return js
 }
